@@ -40,7 +40,7 @@ REQUIRED = ['cmp_ref_enc', 'cmp_roundtrip', 'cmp_split_rand', 'cmp_flip_rand', '
 N = 16
 PARAMS = {
     #           rand msgs/worker, split max, key sizes per (combo,L), flip msgs/combo, ccm declared/impl, edge reps
-    'quick':    dict(cases=40000, split_max=80, split_keys=3, flip_msgs=52, ccm_decl=300, edge=2),
+    'quick':    dict(cases=20000, split_max=80, split_keys=2, flip_msgs=39, ccm_decl=300, edge=1),
     'thorough': dict(cases=400000, split_max=200, split_keys=3, flip_msgs=520, ccm_decl=5000, edge=16),
 }
 
